@@ -40,7 +40,7 @@ type Series struct {
 // Inject describes one fault: act at the K-th storage callback (1-based).
 type Inject struct {
 	K      int64
-	Kind   string // "err" | "panic" | "cancel" | "block"
+	Kind   string // "err" | "errdown" (every callback from the K-th on fails: the storage went down) | "panic" | "cancel" | "block"
 	Cancel context.CancelFunc
 	Fired  int32
 	At     string // kind of the callback at which it fired
@@ -120,6 +120,17 @@ func (s *Store) tick(ctx context.Context, kind string, canErr bool) bool {
 		s.Perturb(n)
 	}
 	inj := s.Inj
+	if inj != nil && inj.Kind == "errdown" && n >= inj.K {
+		if !canErr {
+			return false
+		}
+		if atomic.CompareAndSwapInt32(&inj.Fired, 0, 1) {
+			s.mu.Lock()
+			inj.At = kind
+			s.mu.Unlock()
+		}
+		return true
+	}
 	if inj == nil || inj.K != n {
 		if s.HonourCtx && canErr && ctx != nil && ctx.Err() != nil {
 			return true
@@ -140,6 +151,9 @@ func (s *Store) tick(ctx context.Context, kind string, canErr bool) bool {
 		if ctx != nil {
 			select {
 			case <-ctx.Done():
+				// a storage needs a moment to notice a cancellation: whoever must wait for this
+				// callback (C17: queriers are closed no later than Exec returns) has to wait that long
+				time.Sleep(3 * time.Millisecond)
 			case <-time.After(20 * time.Second):
 			}
 		}
@@ -151,7 +165,7 @@ func (s *Store) tick(ctx context.Context, kind string, canErr bool) bool {
 
 // failure is the error a failing callback reports: the injected one, or the context's.
 func (s *Store) failure(ctx context.Context) error {
-	if inj := s.Inj; inj != nil && inj.Kind == "err" && atomic.LoadInt32(&inj.Fired) == 1 {
+	if inj := s.Inj; inj != nil && (inj.Kind == "err" || inj.Kind == "errdown") && atomic.LoadInt32(&inj.Fired) == 1 {
 		return ErrInjected
 	}
 	if ctx != nil && ctx.Err() != nil {
